@@ -40,6 +40,9 @@ pub struct RelCase {
     /// additional power-of-two scale of all bounds (0 for the ordinary grids; -1070 puts them in the subnormal range)
     #[serde(default)]
     pub scale_exp: i32,
+    /// write every zero bound as -0.0 (an interval that came out of a negation or a product carries it)
+    #[serde(default)]
+    pub neg_zero: bool,
 }
 
 trait Elem: Copy + PartialOrd + Debug + Add<Output = Self> + Sub<Output = Self> + Mul<Output = Self> + Div<Output = Self> + Neg<Output = Self> + num_traits::Num {
@@ -264,7 +267,7 @@ pub fn pair_case(c: &PairCase, obs: &mut Obs) -> PResult {
 /// against a strictly positive reference (two-sided with low > 0, or upper one-sided with bound > 0)
 pub fn rel_case(c: &RelCase, obs: &mut Obs) -> PResult {
     let unit = c.unit_sixteenths as f64 / 16.0 * crate::fl::pow2(c.scale_exp);
-    let val = |i: i32| i as f64 * unit;
+    let val = |i: i32| if i == 0 && c.neg_zero { -0.0 } else { i as f64 * unit };
     let mk = |m: &MI| -> Interval<f64> {
         match m.kind {
             0 => Interval::TwoSided(val(m.a), val(m.b)),
@@ -282,7 +285,7 @@ pub fn rel_case(c: &RelCase, obs: &mut Obs) -> PResult {
     }
     obs.eval();
     obs.class(&cls);
-    obs.nontrivial(&(c.reference, c.this, c.unit_sixteenths, c.scale_exp));
+    obs.nontrivial(&(c.reference, c.this, c.unit_sixteenths, c.scale_exp, c.neg_zero));
     let res = guard(|| this.relative_to(&reference));
     let r = match res {
         Ok(r) => r,
@@ -549,7 +552,10 @@ pub fn run(run: &mut Run) {
     for (unit, scale_exp) in [(16, 0), (8, 0), (3, 0), (16, -1070), (16, 1000), (16, -1022)] {
         for r in &pos {
             for t in &nonneg {
-                run.case("relative_to", &RelCase { reference: *r, this: *t, unit_sixteenths: unit, scale_exp }, rel_case);
+                run.case("relative_to", &RelCase { reference: *r, this: *t, unit_sixteenths: unit, scale_exp, neg_zero: false }, rel_case);
+                if scale_exp == 0 && (t.lo() == 0 || t.hi() == 0) {
+                    run.case("relative_to", &RelCase { reference: *r, this: *t, unit_sixteenths: unit, scale_exp, neg_zero: true }, rel_case);
+                }
             }
         }
     }
